@@ -2,7 +2,7 @@
   Lemmas/SemiLatticeFull — with C09's complete step theorems: a non-refused mutation of a semilattice never raises,
   the `POSet` cache invariant is preserved, and every output is the specified one.
 -/
-import Fca.Lemmas.SemiLatticePres
+import Fca.Lemmas.SemiLatticeAdd
 set_option linter.unusedSectionVars false
 set_option linter.unusedVariables false
 namespace Fca.SemiLattice
@@ -221,27 +221,21 @@ theorem removeSL_eq_delSL (hpoU : PO leq U) {s : SL α} (hI : InvTop leq s) (hnd
 
 /-! ### the complete invariant -/
 
-/-- `InvTop` (C11) + duplicate-free elements + C09's cache invariant + `Complete` -/
+/-- `InvTop` (C11) + duplicate-free elements + C09's cache invariant + `DIC` (on a caching instance: wherever the
+    direct relation of an element is cached, its closed relation is cached too) -/
 structure InvAll (leq : α → α → Bool) (s : SL α) : Prop where
   top : InvTop leq s
   nd : s.p.elems.Nodup
   inv : InvB leq s.p.elems Ghost.none s.p.useCache s.p
-  complete : Complete s
+  dic : s.p.useCache = true → DIC s.p.elems.length s.p.elems.length s.p
 
-/-- the one operation the full step theorem leaves out: `add(new element, fill_up_cache=False)` on a caching
-    instance - it wipes the four relation caches, after which `Complete` no longer holds -/
-def wipes (s : SL α) : OpSL α → Bool
-  | .op (.add e false) => s.p.useCache && !(decide (e ∈ s.p.elems))
-  | _ => false
-
-/-- `POSet.add` on a semilattice under the complete invariant -/
+/-- `POSet.add` on a semilattice under the complete invariant (every variant: present element, uncached,
+    `fill_up_cache=False` - which wipes the relation caches -, `fill_up_cache=True`) -/
 theorem posetAddSL_full (hpoU : PO leq U) (hord : ∀ l, (ord l).Perm l) {s : SL α} (hA : InvAll leq s)
-    (hU : ∀ a ∈ s.p.elems, U a) {e : α} (heU : U e) (fill : Bool)
-    (hw : wipes s (.op (.add e fill)) = false) :
+    (hU : ∀ a ∈ s.p.elems, U a) {e : α} (heU : U e) (fill : Bool) :
     ∃ s1, posetAddSL leq ord e fill s = (s1, .ok ()) ∧
       InvB leq (addNext s.p.elems e) Ghost.none s.p.useCache s1.p ∧
-      (s.p.useCache = true → ∀ d, s.cls.has d = true → ∀ k, k < (addNext s.p.elems e).length →
-        (alookup k (s1.p.closed d)).isSome = true) := by
+      (s.p.useCache = true → DIC (addNext s.p.elems e).length (addNext s.p.elems e).length s1.p) := by
   have hpo : IdxPO leq s.p.elems := idxPO_of hpoU hA.nd hU
   by_cases he : e ∈ s.p.elems
   · refine ⟨s, ?_, ?_, ?_⟩
@@ -249,7 +243,7 @@ theorem posetAddSL_full (hpoU : PO leq U) (hord : ∀ l, (ord l).Perm l) {s : SL
       rw [bind_ok (get_apply s)]
       simp only [he, ↓reduceIte, pure_apply]
     · simp only [addNext, he, ↓reduceIte]; exact hA.inv
-    · simp only [addNext, he, ↓reduceIte]; exact hA.complete
+    · simp only [addNext, he, ↓reduceIte]; exact hA.dic
   · have hrun : posetAddSL leq ord e fill s = (posetAddCacheSL leq ord e fill >>= fun _ =>
         ML.lift (M.modify fun p => { p with elems := p.elems ++ [e] })) s := by
       unfold posetAddSL
@@ -266,33 +260,45 @@ theorem posetAddSL_full (hpoU : PO leq U) (hord : ∀ l, (ord l).Perm l) {s : SL
       have := hA.inv
       rw [huc] at this
       exact add_uncached_inv this
-    · cases fill
-      · simp [wipes, huc, he] at hw
+    · have hinv := hA.inv
+      rw [huc] at hinv
+      cases fill
+      · -- `fill_up_cache=False`: the four relation caches are wiped
+        have hc : posetAddCacheSL leq ord e false s =
+            ({ s with p := { s.p with descC := [], ancC := [], chilC := [], parC := [] } }, .ok ()) := by
+          unfold posetAddCacheSL
+          rw [bind_ok (get_apply s)]
+          rw [if_pos huc]
+          exact lift_modify _ s
+        refine ⟨_, by rw [hrun, bind_ok hc]; exact lift_modify _ _, ?_, fun _ d k _ _ hp => ?_⟩
+        · simp only [addNext, he, ↓reduceIte]
+          exact add_nofill_inv hinv
+        · cases d <;> simp [St.direct] at hp
       · have hpo' : IdxPO leq (s.p.elems ++ [e]) := by
           have := idxPO_of hpoU (addNext_nodup hA.nd e) (addNext_U hU heU)
           simpa [addNext, he] using this
-        have hinv := hA.inv
-        rw [huc] at hinv
-        obtain ⟨p6, cl, dr, hfill, hP⟩ := posetAddFillSL_spec (ord := ord) hpo hpo' hord hinv
+        obtain ⟨p6, cl, dr, hfill, hP, hD⟩ := posetAddFillSL_specW (ord := ord) hpo hpo' hord hinv
           (fun d hd => by
             obtain ⟨t, ht, hc⟩ := hA.top.ext d hd
             exact ⟨t, ht, hc huc⟩)
-          (fun d hd k hk => hA.complete huc d hd k hk)
+          (hA.dic huc)
         have hc : posetAddCacheSL leq ord e true s = ({ s with p := p6 }, .ok ()) := by
           unfold posetAddCacheSL
           rw [bind_ok (get_apply s)]
           simp only [huc, ↓reduceIte]
           exact hfill
-        refine ⟨_, by rw [hrun, bind_ok hc]; exact lift_modify _ _, ?_, fun _ d _ k hk => ?_⟩
+        refine ⟨_, by rw [hrun, bind_ok hc]; exact lift_modify _ _, ?_, fun _ d k hk hx hp => ?_⟩
         · simp only [addNext, he, ↓reduceIte]
-          exact patchInv_final hP
+          exact Weak.patchInv_final hP
         · simp only [addNext, he, ↓reduceIte, List.length_append, List.length_singleton] at hk
-          show (alookup k (({ p6 with elems := p6.elems ++ [e] } : St α).closed d)).isSome = true
           have hcl : ({ p6 with elems := p6.elems ++ [e] } : St α).closed d = p6.closed d := by cases d <;> rfl
+          have hdr : ({ p6 with elems := p6.elems ++ [e] } : St α).direct d = p6.direct d := by cases d <;> rfl
+          show (alookup k (({ p6 with elems := p6.elems ++ [e] } : St α).closed d)).isSome = true
           rw [hcl]
           by_cases hkn : k = s.p.elems.length
           · rw [hkn, hP.closedNew d]; rfl
-          · exact hP.closedPres d k (by omega)
+          · have hp' : (alookup k (p6.direct d)).isSome = true := by rw [← hdr]; exact hp
+            exact hD d k (by omega) (by omega) hp'
 
 theorem next_query {E : List α} {o : Op α} (ho : isMutation o = false) : next E o = E := by
   cases o <;> first | rfl | cases ho
@@ -318,18 +324,19 @@ theorem invAll_query (hpoU : PO leq U) (hord : ∀ l, (ord l).Perm l) {s : SL α
   refine ⟨⟨invTop_of_frame hA.top rfl f1 f2 rfl rfl, hnd', ?_, ?_⟩, h2, f1, f2⟩
   · show InvB leq (step leq ord s.p o).1.elems Ghost.none (step leq ord s.p o).1.useCache (step leq ord s.p o).1
     rw [f1, f2]; exact h1
-  · intro hu d hd k hk
+  · intro hu
     have hu' : s.p.useCache = true := by rw [← f2]; exact hu
-    have hk' : k < s.p.elems.length := by rw [← f1]; exact hk
-    exact step_query_pres (leq := leq) (ord := ord) s.p o ho d k (hA.complete hu' d hd k hk')
+    show DIC (step leq ord s.p o).1.elems.length (step leq ord s.p o).1.elems.length (step leq ord s.p o).1
+    rw [f1]
+    exact step_query_dic (leq := leq) (ord := ord) _ _ s.p o ho (hA.dic hu')
 
-/-- ONE STEP, complete: under `InvAll`, for every operation in the documented range except
-    `add(new, fill_up_cache=False)` on a caching instance, the step re-establishes `InvAll`, its output is the
+/-- ONE STEP, complete: under `InvAll`, for every operation in the documented range (including
+    `add(new, fill_up_cache=False)` on a caching instance), the step re-establishes `InvAll`, its output is the
     specified answer (`Spec.answerSL`: the refusal's exception, or the `Fresh` answer - in particular a non-refused
     mutation never raises), the element list is the specified one, class tag and cache flag are kept. -/
 theorem stepSL_full (hpoU : PO leq U) (hord : ∀ l, (ord l).Perm l) {s : SL α} (hA : InvAll leq s)
     (hU : ∀ a ∈ s.p.elems, U a) (op : OpSL α) (hok : opOkSL s.cls s.p.elems s.p.useCache op = true)
-    (hin : OpInSL U op) (hw : wipes s op = false) :
+    (hin : OpInSL U op) :
     InvAll leq (stepSL leq ord s op).1 ∧ (stepSL leq ord s op).2 = answerSL leq s.cls s.p.elems op ∧
       (stepSL leq ord s op).1.p.elems = nextSL leq s.cls s.p.elems op ∧
       (stepSL leq ord s op).1.cls = s.cls ∧ (stepSL leq ord s op).1.p.useCache = s.p.useCache := by
@@ -392,7 +399,7 @@ theorem stepSL_full (hpoU : PO leq U) (hord : ∀ l, (ord l).Perm l) {s : SL α}
       cases href : refusal leq s.cls s.p.elems (.add e f) with
       | some er => exact refused er (by simp [refusalSL, href]) ⟨_, rfl⟩
       | none =>
-        obtain ⟨s1, hr, hinv1, hcomp1⟩ := posetAddSL_full (ord := ord) hpoU hord hA hU (e := e) hin f hw
+        obtain ⟨s1, hr, hinv1, hcomp1⟩ := posetAddSL_full (ord := ord) hpoU hord hA hU (e := e) hin f
         obtain ⟨s', hs', hp'⟩ := addSL_ok (ord := ord) hpoU hA.top hA.nd hU (e := e) hin f href hr
         have hout : (stepSL leq ord s (.op (.add e f))).2 = .unit := by simp only [stepSL, hs', outOf]
         obtain ⟨g1, g2, g3, g4⟩ := hacc (Or.inr fun er h => by rw [hout] at h; cases h)
@@ -403,10 +410,9 @@ theorem stepSL_full (hpoU : PO leq U) (hord : ∀ l, (ord l).Perm l) {s : SL α}
         refine ⟨⟨g1, ?_, ?_, ?_⟩, ?_, g2, g3, g4⟩
         · rw [g2, hnx]; exact addNext_nodup hA.nd e
         · rw [g2, hnx, g4, hp']; exact hinv1
-        · intro hu d hd k hk
-          rw [g2, hnx] at hk
-          rw [hp']
-          exact hcomp1 (g4 ▸ hu) d (g3 ▸ hd) k hk
+        · intro hu
+          rw [g2, hnx, hp']
+          exact hcomp1 (g4 ▸ hu)
         · rw [hout]; simp [answerSL, href, answer]
     | del k =>
       cases href : refusal leq s.cls s.p.elems (.del k) with
@@ -433,13 +439,11 @@ theorem stepSL_full (hpoU : PO leq U) (hord : ∀ l, (ord l).Perm l) {s : SL α}
         refine ⟨⟨g1, ?_, ?_, ?_⟩, ?_, g2, g3, g4⟩
         · rw [g2, hnx]; exact hA.nd.eraseIdx k
         · rw [g2, hnx, g4, hp']; exact hinv1
-        · intro hu d hd j hj
-          rw [g2, hnx, List.length_eraseIdx_of_lt hk] at hj
-          rw [hp']
+        · intro hu
           have hu0 : s.p.useCache = true := g4 ▸ hu
-          have := delE_pres (ord := ord) hk hu0 (by rw [hrun']) d (j := up k j) (up_ne k j)
-            (hA.complete hu0 d (g3 ▸ hd) (up k j) (up_lt hk hj))
-          rw [decr_up, hrun'] at this
+          rw [g2, hnx, List.length_eraseIdx_of_lt hk, hp']
+          have := delE_dic (ord := ord) hk hk hu0 (by rw [hrun']) (hA.dic hu0)
+          rw [hrun'] at this
           exact this
         · rw [hout]; simp [answerSL, href, answer, hk]
     | remove e =>
@@ -472,13 +476,11 @@ theorem stepSL_full (hpoU : PO leq U) (hord : ∀ l, (ord l).Perm l) {s : SL α}
         refine ⟨⟨g1, ?_, ?_, ?_⟩, ?_, g2, g3, g4⟩
         · rw [g2, hnx]; exact hA.nd.eraseIdx i
         · rw [g2, hnx, g4, hp']; exact hinv1
-        · intro hu d hd j hj
-          rw [g2, hnx, List.length_eraseIdx_of_lt hk] at hj
-          rw [hp']
+        · intro hu
           have hu0 : s.p.useCache = true := g4 ▸ hu
-          have := delE_pres (ord := ord) hk hu0 (by rw [hrun']) d (j := up i j) (up_ne i j)
-            (hA.complete hu0 d (g3 ▸ hd) (up i j) (up_lt hk hj))
-          rw [decr_up, hrun'] at this
+          rw [g2, hnx, List.length_eraseIdx_of_lt hk, hp']
+          have := delE_dic (ord := ord) hk hk hu0 (by rw [hrun']) (hA.dic hu0)
+          rw [hrun'] at this
           exact this
         · rw [hout]; simp [answerSL, href, answer, hi]
 
